@@ -304,12 +304,77 @@ PredictReadR(W, r) ==
            v |-> Tup([i \in 1..n |-> EvalW(r.e, W, EnvRoot(W, pt(i).k, pt(i).l, pt(i).j), -1)])]
   ELSE PredictRead(W, r)
 
+(***************************************************************************)
+(* Starting point (C10): the physical start value of every decision        *)
+(* variable as a function of the ordered list of guesses d.init.           *)
+(* A guess is [sym : leaf, form : "const" | "expr" | "cols", e : Expr in   *)
+(* t / T / t0, vals : sequence of rationals].  The last guess for a symbol *)
+(* wins; anything never given starts at zero.                              *)
+(***************************************************************************)
+NoGuess == [form |-> "none"]
+LastGuess(d, op, i) ==
+  LET idxs == {n \in 1..Len(d.init) : d.init[n].sym.op = op /\ (op \in {"T", "t0"} \/ d.init[n].sym.i = i)}
+  IN IF idxs = {} THEN NoGuess ELSE d.init[CHOOSE n \in idxs : \A m \in idxs : m <= n]
+
+TimeEnv(t, T, t0) == [x |-> <<>>, u |-> <<>>, z |-> <<>>, p |-> <<>>, v |-> <<>>, q |-> <<>>,
+                      t |-> t, T |-> T, t0 |-> t0, DT |-> BAD, DTc |-> BAD]
+GuessAt(g, t, col, T, t0) ==
+  CASE g.form = "none"  -> Zero
+    [] g.form = "const" -> g.vals[1]
+    [] g.form = "expr"  -> Eval(g.e, TimeEnv(t, T, t0))
+    [] g.form = "cols"  -> IF col <= Len(g.vals) THEN g.vals[col] ELSE BAD
+
+StartHorizon(h, d, op) ==
+  CASE h.kind = "num"  -> h.v
+    [] h.kind = "par"  -> d.params[h.i].val[1]
+    [] h.kind = "free" -> LET g == LastGuess(d, op, 0) IN IF g.form = "none" THEN h.v ELSE g.vals[1]
+
+StartOf(d) ==
+  LET m == d.method
+      N == m.N
+      M == m.M
+      t0 == StartHorizon(d.t0, d, "t0")
+      T == StartHorizon(d.T, d, "T")
+      \* the guessed grid: the grid class's own nodes for the guessed horizon (FreeGrid: uniform)
+      g == Declared(m.grid, N, t0, T)
+      ig == IntegratorGrid(g, N, M)
+      deg == m.degree
+      tau == IF m.kind = "DC" THEN Tau(m.scheme, deg) ELSE <<>>
+      gx(i) == LastGuess(d, "x", i)
+      gz(i) == LastGuess(d, "z", i)
+  IN [T |-> T, t0 |-> t0, grid |-> g,
+      X |-> Tup([k \in 1..N + 1 |-> Tup([i \in 1..NX(d) |-> GuessAt(gx(i), g[k], k, T, t0)])]),
+      U |-> Tup([k \in 1..N |-> Tup([i \in 1..NU(d) |-> GuessAt(LastGuess(d, "u", i), g[k], k, T, t0)])]),
+      V |-> Tup([i \in 1..NV(d) |-> Tup([c \in 1..(CASE d.vars[i].kind = "g" -> 1 [] d.vars[i].kind = "c" -> N [] OTHER -> N + 1) |->
+                  GuessAt(LastGuess(d, "v", i), g[c], c, T, t0)])]),
+      \* direct collocation helper states: integrator points and collocation times (time expressions and constants only)
+      XI |-> IF m.kind # "DC" THEN <<>> ELSE
+             Tup([k \in 1..N |-> Tup([l \in 1..M |-> Tup([i \in 1..NX(d) |->
+                  IF gx(i).form = "cols" THEN BAD ELSE GuessAt(gx(i), ig[(k - 1) * M + l], 1, T, t0)])])]),
+      XR |-> IF m.kind # "DC" THEN <<>> ELSE
+             Tup([k \in 1..N |-> Tup([l \in 1..M |-> Tup([j \in 1..deg |-> Tup([i \in 1..NX(d) |->
+                  IF gx(i).form = "cols" THEN BAD
+                  ELSE GuessAt(gx(i), Add(ig[(k - 1) * M + l], Mul(Mul(Sub(g[k + 1], g[k]), Q(1, M)), tau[j])), 1, T, t0)])])])]),
+      ZR |-> IF m.kind # "DC" THEN <<>> ELSE
+             Tup([k \in 1..N |-> Tup([l \in 1..M |-> Tup([j \in 1..deg |-> Tup([i \in 1..NZ(d) |->
+                  IF gz(i).form = "cols" THEN BAD
+                  ELSE GuessAt(gz(i), Add(ig[(k - 1) * M + l], Mul(Mul(Sub(g[k + 1], g[k]), Q(1, M)), tau[j])), 1, T, t0)])])])]),
+      gv |-> GvOf(g, N)]
+
+(* C11: a free horizon adds exactly the row T >= 0 *)
+TPos(d, W) == [present |-> d.T.kind = "free", slack |-> W.T]
+
+(* C14: the scale of every solver variable *)
+Scales(d) == [x |-> Tup([i \in 1..NX(d) |-> d.states[i].scale]), u |-> Tup([i \in 1..NU(d) |-> d.controls[i].scale]),
+              z |-> Tup([i \in 1..NZ(d) |-> d.algs[i].scale]), v |-> Tup([i \in 1..NV(d) |-> d.vars[i].scale])]
+
 Predict(d, pr, pr2) ==
   LET W == World(d, pr)
       W2 == World(d, pr2)
   IN [grid |-> W.g, igrid |-> W.ig, T |-> W.T, t0 |-> W.t0,
       X |-> W.X,
       gridfeas |-> DeclFeasible(d.method.grid, W.N, W.t0, W.T, pr.gv),
+      start |-> StartOf(d), tpos |-> TPos(d, W), scales |-> Scales(d),
       gaps |-> PredictGaps(W),
       cons |-> PredictCons(W, W2),
       f |-> PredictObj(W),
